@@ -5,7 +5,7 @@ use emit::span::{SpanCtxt, SpanId, TraceId};
 use emit::Frame;
 use emit_traceparent::{TraceFlags, Traceparent, Tracestate};
 
-use crate::exec::{block_on, join, yield_now, BoxFut};
+use crate::exec::{alternating, block_on, join, yield_now, BoxFut};
 use crate::rt::{Log, Rt, Sc, Tp, L};
 use crate::tree::{u128_of, Carry, Form, Header, PItem, PNode, PushVia};
 
@@ -108,6 +108,97 @@ async fn span_guard_async(env: &Env<'_>, node: &PNode) {
 }
 
 // ---------------------------------------------------------------------------------------------
+// span call sites where the span's OWN frame (the one `new_span!` returns) travels to another thread
+
+fn far_end(env: &Env, node: &PNode) {
+    if let Some(id) = node.far_end {
+        check(env, id);
+    }
+}
+
+fn span_handoff_call(env: &Env, node: &PNode) {
+    let (mut guard, frame) = emit::new_span!(rt: env.rt, mdl: emit::Path::new_raw(node.mdl), "handoff_call");
+    let r = std::thread::scope(|s| {
+        s.spawn(move || {
+            vcore::catch(move || {
+                frame.call(move || {
+                    guard.start();
+                    body_start(env, node);
+                    run_sync(env, &node.items);
+                    guard.complete();
+                });
+                far_end(env, node);
+            })
+        })
+        .join()
+    });
+    rejoin(env, r);
+}
+
+fn span_handoff_in_fn(env: &Env, node: &PNode) {
+    let (mut guard, frame) = emit::new_span!(rt: env.rt, mdl: emit::Path::new_raw(node.mdl), "handoff_in_fn");
+    let on_thread = frame.in_fn(move || {
+        guard.start();
+        body_start(env, node);
+        run_sync(env, &node.items);
+        drop(guard);
+    });
+    let r = std::thread::scope(|s| {
+        s.spawn(move || {
+            vcore::catch(move || {
+                on_thread();
+                far_end(env, node);
+            })
+        })
+        .join()
+    });
+    rejoin(env, r);
+}
+
+fn span_handoff_enter_back(env: &Env, node: &PNode) {
+    let (mut guard, mut frame) = emit::new_span!(rt: env.rt, mdl: emit::Path::new_raw(node.mdl), "handoff_enter_back");
+    let r = std::thread::scope(|s| {
+        s.spawn(move || {
+            let r = vcore::catch(|| {
+                {
+                    let _entered = frame.enter();
+                    guard.start();
+                    body_start(env, node);
+                    run_sync(env, &node.items);
+                }
+                far_end(env, node);
+            });
+            (r, guard, frame)
+        })
+        .join()
+    });
+    match r {
+        Ok((r, guard, mut frame)) => {
+            rejoin(env, Ok(r));
+            // back on the parent thread: complete inside the span's frame, as the docs demand
+            let _entered = frame.enter();
+            guard.complete();
+        }
+        Err(e) => rejoin(env, Err(e)),
+    }
+}
+
+async fn span_handoff_future(env: &Env<'_>, node: &PNode) {
+    let (mut guard, frame) = emit::new_span!(rt: env.rt, mdl: emit::Path::new_raw(node.mdl), "handoff_future");
+    alternating(
+        frame.in_future(async move {
+            guard.start();
+            body_start(env, node);
+            run_async(env, &node.items).await;
+            guard.complete();
+        }),
+        &|| env.push(L::PollThreadEnd { tp: Tp::current() }),
+        env.fail,
+    )
+    .await
+}
+
+// ---------------------------------------------------------------------------------------------
 // dispatch
 
 fn span_sync(env: &Env, node: &PNode) {
@@ -128,7 +219,19 @@ fn span_sync(env: &Env, node: &PNode) {
             env.push(L::Begin(node.id));
             span_guard_sync(env, node)
         }
-        Form::AsyncFn | Form::ManualFuture | Form::GuardAsync => block_on(span_async(env, node)),
+        Form::HandoffCall => {
+            env.push(L::Begin(node.id));
+            span_handoff_call(env, node)
+        }
+        Form::HandoffInFn => {
+            env.push(L::Begin(node.id));
+            span_handoff_in_fn(env, node)
+        }
+        Form::HandoffEnterBack => {
+            env.push(L::Begin(node.id));
+            span_handoff_enter_back(env, node)
+        }
+        Form::AsyncFn | Form::ManualFuture | Form::GuardAsync | Form::HandoffFuture => block_on(span_async(env, node)),
     }
 }
 
@@ -146,6 +249,10 @@ fn span_async<'a>(env: &'a Env<'a>, node: &'a PNode) -> BoxFut<'a> {
         Form::GuardAsync => Box::pin(async move {
             env.push(L::Begin(node.id));
             span_guard_async(env, node).await
+        }),
+        Form::HandoffFuture => Box::pin(async move {
+            env.push(L::Begin(node.id));
+            span_handoff_future(env, node).await
         }),
         _ => Box::pin(async move { span_sync(env, node) }),
     }
